@@ -95,6 +95,20 @@ def replay_search(qn, model, seed, n):
         return None
 
 
+def engine_crosscheck(functions, seed, n):
+    """Run-time evaluation of the same contract text on the real functions (bounded/replay.py crosscheck)."""
+    fs = [f for f in functions if "#" not in f]
+    if not fs:
+        return []
+    env = dict(os.environ, NUMBA_DISABLE_JIT="1", PYTHONWARNINGS="ignore", VERIF_REPO=REPO)
+    p = subprocess.run([VENV_PY, "-W", "ignore", "-m", "bounded.replay", "crosscheck"] + fs + ["--n", str(n), "--seed", str(seed)],
+                       cwd=ROOT, env=env, capture_output=True, text=True)
+    try:
+        return json.loads(p.stdout.strip().splitlines()[-1])
+    except Exception:
+        return [dict(function="*", status="error", why=(p.stderr or p.stdout)[-300:])]
+
+
 def load_known():
     p = os.path.join(ROOT, "known_findings.json")
     if not os.path.exists(p):
@@ -243,6 +257,18 @@ def check_property(pid, tier):
                     undecided.append(o["name"] + " :: " + o["note"][:120])
     errors += dead
 
+    # ---------------- engine cross-check: the same contract text evaluated at run time on the real functions
+    xc_fns = {r["function"] for r in results if not (r.get("variant") or {}).get("structural")}
+    xc_fns |= {c for r in results for c in r.get("used_contracts", []) if not c.startswith("external::")}   # assumed / callee contracts too
+    xc = engine_crosscheck(sorted(xc_fns), seed, 200 if tier == "quick" else 3000)
+    failed_fns = {o["func"] for r in results for o in r["obligations"] if o["verdict"] != "unsat"}
+    for x in xc:
+        if x["status"] == "failed" and x["function"] not in failed_fns:
+            errors.append("engine cross-check: %s is proved but its contract fails at run time on %s -> engine or trusted library contract unsound" % (
+                x["function"], json.dumps(x["failure"])[:300]))
+        if x["status"] == "error":
+            errors.append("engine cross-check could not run: %s" % x.get("why"))
+
     # ---------------- bounded layer
     bounded = None
     if P.get("bounded"):
@@ -277,6 +303,7 @@ def check_property(pid, tier):
         samples=samples,
         explanation=P["explanation"],
         undecided=undecided, checker_errors=errors, further_failed_obligations=more_failed,
+        engine_crosscheck=[dict(function=x["function"], status=x["status"], cases=x.get("satisfying_precondition"), why=x.get("why")) for x in xc],
         known_findings_reported=[k[0].get("what") for k in known_hits],
     )
     if bounded and not bounded.get("error"):
